@@ -3,11 +3,13 @@
 # pairs; C01 and C02 judge them with their own oracles.
 import os
 
+import codec
 import flowjobs
 import vlib
-from props import c03
 
-FUZZ_CFG = """SPECIFICATION Spec
+
+FUZZ_CFG = {
+    "ipfix": """SPECIFICATION Spec
 CONSTANTS
   Ext <- FuzzExt
   PadRule = "rfc"
@@ -16,7 +18,19 @@ CONSTANTS
   EmitCases = %(emit)s
 INVARIANTS Safe Emit
 CHECK_DEADLOCK FALSE
-"""
+""",
+    "v9": """SPECIFICATION Spec
+CONSTANTS
+  PadRule = "rfc"
+  GuardZeroRec = %(guard)s
+  Reserved23 = %(guard)s
+  Setups <- %(setups)s
+  EmitCases = %(emit)s
+INVARIANTS Safe Emit
+CHECK_DEADLOCK FALSE
+""",
+}
+FUZZ_MOD = {"ipfix": "IPFIXFuzzMC", "v9": "NetFlow9FuzzMC"}
 
 
 def mutate(rng, buf):
@@ -48,20 +62,25 @@ def mutate(rng, buf):
     return b
 
 
-def ipfix(ctx, thorough, namplify):
-    ctx.tlc_must_fail("IPFIXFuzzMC", "asbuilt.cfg", expect="Safe", workers=8,
-                      files={"asbuilt.cfg": FUZZ_CFG % dict(guard="FALSE", setups="SetupsQ", emit="FALSE")})
-    cfg = FUZZ_CFG % dict(guard="TRUE", setups="SetupsT" if thorough else "SetupsQ", emit="TRUE")
-    r = ctx.tlc_model("IPFIXFuzzMC", "run.cfg", files={"run.cfg": cfg}, want_cases=True, timeout=3000)
+def flow(ctx, proto, thorough, namplify, measure=True, stride=1):
+    """IPFIX / NetFlow v9"""
+    name = codec.P[proto]["name"]
+    mod = FUZZ_MOD[proto]
+    ctx.tlc_must_fail(mod, "asbuilt.cfg", expect="Safe", workers=8,
+                      files={"asbuilt.cfg": FUZZ_CFG[proto] % dict(guard="FALSE", setups="SetupsQ", emit="FALSE")})
+    cfg = FUZZ_CFG[proto] % dict(guard="TRUE", setups="SetupsT" if thorough else "SetupsQ", emit="TRUE")
+    r = ctx.tlc_model(mod, "run.cfg", files={"run.cfg": cfg}, want_cases=True, timeout=3000)
     cases = r.cases
-    ctx.note("IPFIX: TLC proved the reference collector total on %d boundary histories" % len(cases))
-    drv = ctx.go_build_test("ipfix", ["ipfix/decode_verif_test.go", "ipfix/infomodel_verif_test.go"])
-    eldir = c03.elements_dir(ctx)
+    ctx.note("%s: TLC proved the reference collector total on %d boundary histories" % (name, len(cases)))
+    drv = codec.driver(ctx, proto)
+    eldir = codec.elements_dir(ctx)
     exps = flowjobs.exporters(ctx.seed)
     jobs = []
     for ci, c in enumerate(cases):
+        if (ci + ctx.seed) % stride:
+            continue
         exp = exps[ci % 3]
-        jobs.append({"msgs": [{"exp": exp, "buf": b} for b in c["hist"]], "want_json": True, "measure": True, "src": "tlc"})
+        jobs.append({"msgs": [{"exp": exp, "buf": b} for b in c["hist"]], "want_json": True, "measure": measure, "src": "tlc"})
     # seeded amplification: mutate the decisive datagram (and sometimes a setup datagram)
     rng = ctx.rng
     for _ in range(namplify):
@@ -72,8 +91,9 @@ def ipfix(ctx, thorough, namplify):
         if rng.random() < 0.3:
             hist[k] = mutate(rng, hist[k])
         exp = exps[rng.randrange(3)]
-        jobs.append({"msgs": [{"exp": exp, "buf": b} for b in hist], "want_json": True, "measure": True, "src": "mut"})
-    res = flowjobs.run_jobs(ctx, drv, "TestVerifIPFIXJobs", jobs, env={"VERIF_ELEMENTS_DIR": eldir}, tag="fz", timeout=3000)
+        jobs.append({"msgs": [{"exp": exp, "buf": b} for b in hist], "want_json": True, "measure": measure, "src": "mut"})
+    res = flowjobs.run_jobs(ctx, drv, codec.P[proto]["jobs"], jobs, env={"VERIF_ELEMENTS_DIR": eldir}, tag="fz_" + proto, timeout=3000)
+    ctx.traces_validated += sum(1 for r in res if not r.get("skipped"))
     return list(zip(jobs, res))
 
 
